@@ -54,8 +54,10 @@ def writer_reader(ctx, rep, prog, g):
     whole = entry_consumes_all(prog)
     lang = L.consumed_whole(M) if whole else diff(L.sigma_star(), F)
     ident_cl = None
+    from .c05 import closures_in
+    ident_keys = [c.key for c in (closures_in(g, "identifier") if "identifier" in g else [])]
     for name, cl in classes.items():
-        if isinstance(name, tuple) and name[0] == "closure" and name[1].startswith("identifier"):
+        if isinstance(name, tuple) and name[0] == "closure" and name[1] in ident_keys:
             ident_cl = cl
     if ident_cl is None:
         rep.inconc("identifier class not found")
